@@ -1,13 +1,89 @@
-/- line-protocol handlers of the "transport" family (stub: filled in by the family's model) -/
+/- line-protocol handlers of the "transport" family (C05 TRSO, C06 transport vocabulary, C09 ctfTRu / ctfTR) -/
 import Y0.Model.Graph
 import Y0.Model.Expr
+import Y0.Model.Trso
+import Y0.Model.CtfTr
 import Y0.Driver.Graph
 
 namespace Y0.Driver
-open Y0 Sexp
+open Y0 Sexp Y0.Trso
 
-def handleTransport (op : String) (args : List Sexp) : Option Sexp :=
+/-- `((pop (v …)) …)` -/
+def tr_parseAssoc : Sexp → Option (List (Nat × List Nat))
+  | .list xs => xs.mapM fun
+      | .list [p, vs] => do pure (← asNat? p, ← asNats? vs)
+      | _ => none
+  | _ => none
+
+def tr_optExprToSexp : Except Err (Option Expr) → Sexp
+  | .ok (some e) => tagged "ok" [Codec.exprToSexp e]
+  | .ok none => tagged "none" []
+  | .error e => e.toSexp
+
+def tr_exprResult : Except Err Expr → Sexp
+  | .ok e => tagged "ok" [Codec.exprToSexp e]
+  | .error e => e.toSexp
+
+def tr_boolSexp (b : Bool) : Sexp := .atom (if b then "true" else "false")
+
+/-- `(v name star isIv ivs)` with a value star -> (base variable, value) as `_event_from_counterfactuals` does -/
+def tr_eventOf? : Sexp → Option Ctf.Event
+  | .list xs => xs.mapM fun x => do
+      let v ← Codec.varOf? x
+      pure ({ v with star := none }, v.star.map fun s => (⟨v.name, s⟩ : Iv))
+  | _ => none
+
+/-- `((pop graph (topo…) (policy…)) …)`; the population expression is `PP[pop](regular nodes)` -/
+def tr_domainsOf? : Sexp → Option (List CtfTr.Domain)
+  | .list xs => xs.mapM fun
+      | .list [p, g, t, z] => do
+          let G ← parseGraph g
+          let pop ← asNat? p
+          pure { graph := G, topo := ← asNats? t, policy := ← asNats? z,
+                 pop := .prob (some (Var.plain pop)) (TrDsl.plainVars (CtfTr.regular G)) [] }
+      | _ => none
+  | _ => none
+
+def tr_eventToSexp (e : Ctf.Event) : Sexp :=
+  .list (e.map fun p => Codec.varToSexp { p.1 with star := p.2.map (·.star) })
+
+def tr_answerSexp : Except Err (Option CtfTr.Answer) → Sexp
+  | .ok (some (e, ev)) => tagged "ok" [Codec.exprToSexp e, match ev with | some x => tr_eventToSexp x | none => .atom "none"]
+  | .ok none => tagged "fail" []
+  | .error e => e.toSexp
+
+def tr_unitSexp : Except Err Unit → Sexp
+  | .ok () => tagged "ok" []
+  | .error e => e.toSexp
+
+def handleTransport (op : String) (args : List Sexp) : Option Sexp := do
   match op, args with
+  | "identify", [g, y, x, so, si] =>
+      pure (tr_optExprToSexp (identifyTargetOutcomes dSeparated (← parseGraph g) (← asNats? y) (← asNats? x)
+        (← tr_parseAssoc so) (← tr_parseAssoc si)))
+  | "nodes_to_transport", [g, z, w] =>
+      pure (exceptToSexp ofNats (getNodesToTransport (← parseGraph g) (← asNats? z) (← asNats? w)))
+  | "transport_diagram", [g, ns] =>
+      pure (tagged "ok" [graphToSexp (createTransportDiagram (← parseGraph g) (← asNats? ns))])
+  | "separated", [g, x, y] =>
+      pure (exceptToSexp tr_boolSexp (allTransportsDSeparated dSeparated (← parseGraph g) (← asNats? x) (← asNats? y)))
+  | "d_separated", [g, a, b, c] =>
+      pure (exceptToSexp tr_boolSexp (dSeparated (← parseGraph g) (← asNat? a) (← asNat? b) (← asNats? c)))
+  | "activate", [e, zs, d] =>
+      pure (tr_exprResult (activate (← asNats? zs) (← asNat? d) (← Codec.exprOf? e)))
+  | "canonicalize", [e] => pure (tr_exprResult (TrDsl.canonicalize (← Codec.exprOf? e)))
+  | "mul", [a, b] => pure (tr_exprResult (TrDsl.mul (← Codec.exprOf? a) (← Codec.exprOf? b)))
+  | "truediv", [a, b] => pure (tr_exprResult (TrDsl.truediv (← Codec.exprOf? a) (← Codec.exprOf? b)))
+  | "sum_safe", [e, r, s] =>
+      pure (tagged "ok" [Codec.exprToSexp (TrDsl.sumSafe (← Codec.exprOf? e) ((← asNats? r).map Var.plain) (s == .atom "true"))])
+  | "product_safe", [.list es] =>
+      pure (tagged "ok" [Codec.exprToSexp (TrDsl.productSafe (← es.mapM Codec.exprOf?))])
+  | "ctf_validate_u", [g, ds, ev] =>
+      pure (tr_unitSexp (CtfTr.validateU (← parseGraph g) (← tr_domainsOf? ds) (← tr_eventOf? ev)))
+  | "ctf_validate_c", [g, ds, o, c] =>
+      pure (tr_unitSexp (CtfTr.validateC (← parseGraph g) (← tr_domainsOf? ds) (← tr_eventOf? o) (← tr_eventOf? c)))
+  | "ctf_uncond", [g, ds, ev] =>
+      pure (tr_answerSexp (CtfTr.ctfTRu (← parseGraph g) (← tr_domainsOf? ds) (← tr_eventOf? ev)))
   | _, _ => none
 
 end Y0.Driver
